@@ -1,6 +1,6 @@
 SPECIFICATION Spec
 CONSTANTS MaxOps = 3 MaxSnaps = 1 MaxCrashes = 1 SnapEvery = 1 KeepSnap = 2 KeepCkpt = 1 ChanCap = 2 MaxTimeouts = 1
-  Role = "follower" Persistent = TRUE SafePublish = TRUE Install = TRUE AtomicRestore = FALSE InstLatestAfterSave = TRUE Mutant = ""
+  Role = "follower" Persistent = TRUE SafePublish = TRUE Install = TRUE AtomicRestore = FALSE InstLatestAfterSave = TRUE PurgePromptly = TRUE Mutant = ""
 VIEW View
 CHECK_DEADLOCK FALSE
 INVARIANT Recoverable
